@@ -6,7 +6,9 @@ insertion point (t0dis.py lists them; none may cross, a jump *to* the insertion 
 new code).  Used once, for the "fix:" commit that makes the client refuse TLS_FALLBACK_SCSV as a ServerHello
 cipher suite; kept as the record of how the generated file was edited without the T0 compiler (mono).
 
-usage: t0patch.py <generated.c> <byte offset> <b0> <b1> ...   (bytes in decimal or 0x..)
+usage: t0patch.py <generated.c> [--set OFF=VAL ...] <byte offset> <b0> <b1> ...   (bytes in decimal or 0x..)
+  --set OFF=VAL   first replace the one-byte item at OFF (offsets before the insertion) by VAL: the relative
+                  jumps of the word that cross the insertion point
 """
 import re, sys
 
@@ -40,11 +42,31 @@ def nbytes(tok):
 
 
 def main(argv):
-    path, off = argv[1], int(argv[2], 0)
-    new = [int(x, 0) for x in argv[3:]]
+    sets = {}
+    args = argv[1:]
+    while '--set' in args:
+        k = args.index('--set')
+        a, b = args[k + 1].split('=')
+        sets[int(a, 0)] = int(b, 0)
+        del args[k:k + 2]
+    path, off = args[0], int(args[1], 0)
+    new = [int(x, 0) for x in args[2:]]
     s = open(path).read()
     m = re.search(r'(static const unsigned char t0_codeblock\[\] PROGMEM = \{)(.*?)(\n\};)', s, re.S)
     body = m.group(2)
+    if sets:
+        pos = 0
+        edits = []
+        for a, b in split_items(body):
+            if pos in sets:
+                if not re.fullmatch(r'0x[0-9A-Fa-f]{2}', body[a:b]):
+                    sys.exit('item at %d is not a plain byte' % pos)
+                edits.append((a, b, '0x%02X' % sets.pop(pos)))
+            pos += nbytes(body[a:b])
+        if sets:
+            sys.exit('--set offsets not found: %s' % sorted(sets))
+        for a, b, t in reversed(edits):
+            body = body[:a] + t + body[b:]
     pos, at = 0, None
     for a, b in split_items(body):
         if pos == off:
